@@ -68,7 +68,20 @@ pub fn hex0(s: &[u8]) -> String {
 #[derive(Clone, Debug)]
 pub enum SinkOutcome {
     Accept,
+    /// accepts the metric but answers Ok(n) for an arbitrary n (the count is the sink's business, not the client's)
+    AcceptN(usize),
     Refuse(usize, u64),
+}
+
+/// what the recording sink logs when its flush() is invoked (shown as `F` among the emitted lines)
+pub const FLUSH_MARK: &str = "\u{1}\u{1}<flush>\u{1}\u{1}";
+
+pub fn show_entry(s: &str) -> String {
+    if s == FLUSH_MARK {
+        "F".to_string()
+    } else {
+        hex0(s.as_bytes())
+    }
 }
 
 #[derive(Clone)]
@@ -82,8 +95,14 @@ impl MetricSink for RecSink {
         self.log.lock().unwrap().push(metric.to_string());
         match self.script.lock().unwrap().pop_front() {
             None | Some(SinkOutcome::Accept) => Ok(metric.len()),
+            Some(SinkOutcome::AcceptN(n)) => Ok(n),
             Some(SinkOutcome::Refuse(k, id)) => Err(io::Error::new(IO_KINDS[k % IO_KINDS.len()], Payload(id))),
         }
+    }
+
+    fn flush(&self) -> io::Result<()> {
+        self.log.lock().unwrap().push(FLUSH_MARK.to_string());
+        Ok(())
     }
 }
 
@@ -315,6 +334,8 @@ pub fn parse_script(s: &str) -> VecDeque<SinkOutcome> {
         for t in s.split(',') {
             if t == "a" {
                 q.push_back(SinkOutcome::Accept);
+            } else if let Some(n) = t.strip_prefix('a') {
+                q.push_back(SinkOutcome::AcceptN(n.parse::<u64>().unwrap() as usize));
             } else {
                 let (k, id) = t[1..].split_once('.').expect("refuse");
                 q.push_back(SinkOutcome::Refuse(k.parse().unwrap(), id.parse().unwrap()));
@@ -404,7 +425,7 @@ fn run_x(t: &[&str]) -> String {
             Err(_) => "panic".to_string(),
         };
         let log = built.log.lock().unwrap();
-        let emitted: Vec<String> = log[before_log..].iter().map(|s| hex0(s.as_bytes())).collect();
+        let emitted: Vec<String> = log[before_log..].iter().map(|s| show_entry(s)).collect();
         let hl = built.handled.lock().unwrap();
         let handled: Vec<String> = hl[before_h..].to_vec();
         out.push(format!(
